@@ -273,6 +273,9 @@ func genC04(r *rand.Rand, tier string, in *input) {
 			p.noteInstall(node, a)
 			p.fenced = op.WF
 			p.ready = !op.WF
+			if len(p.prev) > 0 && r.IntN(2) == 0 { // the deposed authority tries to append right away
+				p.add(p.commitOp(node, p.prev[len(p.prev)-1], p.newCmd()))
+			}
 		case x < 73: // install the same authority again (idempotent / changed shape)
 			op := p.installOp(p.leader, p.cur)
 			switch r.IntN(5) {
